@@ -14,7 +14,7 @@ ImplCmp(i, e) ==
                  IN F("print." \o e.fmt, e.text = t)
                     \cup F("parse.printed",
                            e.text # t \/ (e.outcome = "path") = r.ok)
-       [] e.kind = "parse" ->
+       [] e.kind = "parse" /\ e.cmp ->
             F("parse.inst", (e.outcome = "path") = ParseInst(VEnv, e.text).ok)
             \cup F("parse.class",
                    (e.outcomec = "path") = ParseClass(VEnv, e.text).ok)
